@@ -5,9 +5,10 @@ go 1.14
 require (
 	github.com/golang/protobuf v1.4.3
 	github.com/golang/snappy v0.0.2-0.20200707131729-196ae77b8a26
+	github.com/xuperchain/crypto v0.0.0-20201028025054-4d560674bcd6
 	github.com/xuperchain/xupercore v0.0.0
 )
 
-replace github.com/xuperchain/xupercore => /tmp/confirm-C18-13
+replace github.com/xuperchain/xupercore => /tmp/confirm-C06-15
 
 replace github.com/hyperledger/burrow => github.com/xuperchain/burrow v0.30.6-0.20210317023017-369050d94f4a
